@@ -148,6 +148,7 @@ fn main() {
     "programs" => { let n: u64 = args[2].parse().unwrap(); let seed: u64 = args[3].parse().unwrap(); std::process::exit(loader_probe::programs_bounded(n, seed)); },
     "anymod" => { std::process::exit(key_transforms::anymod()); },
     "hek" => { std::process::exit(layout_parsing_formatting::hek_bounded()); },
+    "ordsort" => { let n: u64 = args[2].parse().unwrap(); let seed: u64 = args[3].parse().unwrap(); std::process::exit(loader_probe::ord_sort_probe(n, seed)); },
     "c18" => {
       let seed: u64 = args[2].parse().unwrap(); let budget: u64 = args[3].parse().unwrap();
       std::process::exit(dev_input_rw::c18(seed, budget));
